@@ -64,7 +64,7 @@ func writeThrough(a []string) string {
 	s := pgen.NewSession(c)
 	fr, err := s.Parse(p)
 	if err != nil {
-		return "err:any"
+		return pgen.ErrClass(err)
 	}
 	var view []byte
 	if panicked, _ := lib.Catch(func() { view = viewOf(fr, which) }); panicked {
@@ -203,7 +203,7 @@ func main() {
 			if rng.Chance(60) {
 				i = rng.Intn(24)
 			}
-			if obs := r.Do("wt", append(toks, w, strconv.Itoa(i), strconv.Itoa(int(rng.Byte())))...); obs != "na" && obs != "err:any" {
+			if obs := r.Do("wt", append(toks, w, strconv.Itoa(i), strconv.Itoa(int(rng.Byte())))...); obs != "na" && !strings.HasPrefix(obs, "err:") {
 				r.Stat("wt.view."+w, 1)
 			}
 		}
